@@ -212,7 +212,9 @@ ParseSunmd5(s) ==
          ELSE LET p == IF At(s, z) = 36 /\ (At(s, z + 1) = 36 \/ z + 1 > Len(s)) THEN z + 1 ELSE z
                   saltlen == p - 1 IN
               IF 384 < saltlen + 22 + 2 THEN Fail(ERANGE)
-              ELSE Ok(Take(s, saltlen))
+              ELSE [k |-> "ok", err |-> 0, canon |-> Take(s, saltlen),
+                    \* additional rounds (decimal digits; <<48>> when the setting has no rounds= field)
+                    arounds |-> IF AfterRounds = p0 THEN <<48>> ELSE SubSeq(s, p0 + 7, AfterRounds - 2)]
 
 \* sha1crypt (crypt-pbkdf1-sha1.c:120-170).  strtoul: optional sign, digits; no digits => 0.
 \* The iteration count is re-printed in canonical decimal.  Only small counts are modelled
